@@ -10,6 +10,16 @@ def U(name, src, flavour='asan', quick=None, thorough=None, **kw):
 TRUSTED = ['g++ 12 / clang 14 and their ASan/UBSan runtimes', 'the choice-sequence engine in harness/engine.h (generation, shrinking, replay)']
 
 PROPERTIES = {
+ 'C16': dict(
+    level='exploration', exhaustive_claim=True,
+    rule='exhaustive 8/16-bit integers and 2^24 (quick) / all 2^32 (thorough) float bit patterns; generated boundary/random 32/64-bit integers, doubles and literal-grammar strings; oracle = ref_num (from_chars grammar recogniser, __int128, glibc strtof/strtod)',
+    assumptions=TRUSTED + ['glibc strtof/strtod are correctly rounded', 'ref_num.h literal recogniser follows the std::from_chars grammar named by docs/bitserializer_convert.md; self-tested at start',
+                 'accepted ambiguity: negative literal into unsigned target may raise either exception; floating underflow may return the correctly rounded subnormal/zero or out_of_range'],
+    units=[U('c16_sweep', 'c16_numbers_text.cpp', flavour='opt', needs_lib=False, args=['--only-sweeps'],
+             quick=dict(shards=16, min_eval=10000000), thorough=dict(shards=16, min_eval=1000000000, timeout=5400)),
+           U('c16_pbt', 'c16_numbers_text.cpp', flavour='asan', needs_lib=False, args=['--no-sweeps'],
+             quick=dict(cases=60000, shards=8, min_eval=100000), thorough=dict(cases=2000000, shards=16, min_eval=1000000))]),
+
  'C12': dict(
     level='exploration', exhaustive_claim=True,
     rule='exhaustive sweeps over all UTF-8 strings of length <= 3, 4-byte strings by class, all UTF-16 single units and surrogate pairs, all UTF-32 units, plus generated ill-formed chunks embedded in valid text; oracle = tiling over independent ref_utf',
